@@ -345,6 +345,23 @@ type vTargetRT struct {
 	t *Target
 }
 
+// failed records why the target did not answer: "draining" (cancelled by a
+// drain), "client" (the client went away) or "fault" (anything else).
+func (rt vTargetRT) failed(rid string, err error) error {
+	why := "fault"
+	switch {
+	case errors.Is(err, ErrorDraining):
+		why = "draining"
+	case errors.Is(err, context.Canceled):
+		why = "client"
+	}
+	s := rt.s
+	s.mu.Lock()
+	s.events = append(s.events, vEvent{Seq: len(s.events), T: s.now(), G: rid, Kind: "target-failed", Args: []any{s.idTarget(rt.t), rid, why}})
+	s.mu.Unlock()
+	return err
+}
+
 // The behaviour of the target for one request is chosen by the request itself
 // (header X-Verif-Behaviour): "" or "reply" = immediate 200, "delay:<ns>",
 // "hang" (until the request context ends), "fault:<text>" (transport error),
@@ -365,13 +382,13 @@ func (rt vTargetRT) RoundTrip(req *http.Request) (*http.Response, error) {
 		select {
 		case <-time.After(time.Duration(d)):
 		case <-req.Context().Done():
-			return nil, context.Cause(req.Context())
+			return nil, rt.failed(rid, context.Cause(req.Context()))
 		}
 	case beh == "hang":
 		<-req.Context().Done()
-		return nil, context.Cause(req.Context())
+		return nil, rt.failed(rid, context.Cause(req.Context()))
 	case strings.HasPrefix(beh, "fault:"):
-		return nil, errors.New(beh[len("fault:"):])
+		return nil, rt.failed(rid, errors.New(beh[len("fault:"):]))
 	case strings.HasPrefix(beh, "status:"):
 		status, _ = strconv.Atoi(beh[len("status:"):])
 	}
